@@ -15,3 +15,15 @@ Proof. reflexivity. Qed.
 
 Lemma result_channel_capacity : gen_const_maxResultBuffer = verified_const_maxResultBuffer.
 Proof. reflexivity. Qed.
+
+(* the collector's error bookkeeping is a local closure (recordErr: lock, append, unlock, Done):
+   it is part of the Execute skeleton above, one call per failed result.  The stitching functions
+   the collector and the step tasks call take and release the result lock on every path: *)
+Lemma execute_executorExtractValue_skeleton : gen_execute_executorExtractValue = verified_execute_executorExtractValue.
+Proof. reflexivity. Qed.
+
+Lemma execute_executorInsertObject_skeleton : gen_execute_executorInsertObject = verified_execute_executorInsertObject.
+Proof. reflexivity. Qed.
+
+Lemma execute_executorFindInsertionPoints_skeleton : gen_execute_executorFindInsertionPoints = verified_execute_executorFindInsertionPoints.
+Proof. reflexivity. Qed.
